@@ -409,6 +409,9 @@ def conc_stage(bindir, tier, wd, cov, v):
     r2 = tlc("WSQConc", "MC_WSQConc_dev.cfg", workers=4, timeout=900)
     require_mc_ok(r2, "MC_WSQConc_dev.cfg", expect_violation="any")
     cov["mc_runs"].append({"cfg": "MC_WSQConc_dev.cfg", "expected_violation": r2.violated})
+    r3 = tlc("WSQConc", "MC_WSQConc_pop_claims_first.cfg", workers=4, timeout=900)
+    require_mc_ok(r3, "MC_WSQConc_pop_claims_first.cfg", expect_violation="any")
+    cov["mc_runs"].append({"cfg": "MC_WSQConc_pop_claims_first.cfg", "expected_violation": r3.violated})
     rounds = 40 if tier == "thorough" else 10
     scs = []
     rng = random.Random(seed())
